@@ -1181,7 +1181,7 @@ fn check_tape(tape: &mut Tape, b: &Budget, known: &dyn Fn(&Failure) -> bool, sta
 pub fn run(ctx: &Ctx) {
     let quick = ctx.tier == crate::run::Tier::Quick;
     let b = budget(quick);
-    let cases = ctx.tier.pick(600u32, 3000u32);
+    let cases = ctx.tier.pick(600u32, 10000u32);
     ctx.set_rule(&format!(
         "{} random projects of 2..6 files (plus generated mod.rs glue) with 2..7 commands, 2..7 shallow types (structs / unit enums, fields of primitives or Option/Vec of earlier types), 0..2 events per command, optional channel, mode none|zod, all names unique; plus one fixed 3-file project per mode. Per project: {} in-process runs of generate_from_config + {} fresh processes of the real binary cycling (plain, --verbose, --visualize-deps, both), all compared byte-wise after removing the `Generated at:` line (.typecache excluded); then T1 comments/whitespace, T2 decoy items, T3 reorder items, T4 move/split/merge, T5 rename files/dirs, each one in-process run compared with the original (T1,T2: bytes if the project was deterministic, else declaration maps; T3-T5: declaration maps); evaluation = one run of the tool; non-trivial = at least 2 files with commands and at least 2 types, distinct by project",
         cases, b.inproc_runs, b.process_runs
